@@ -23,7 +23,7 @@ import (
 	"github.com/yandex/pandora/lib/monitoring"
 )
 
-// kind=engine agg=phout|jsonlines pools=<P> inst=<I> ammo=<N> per=<R> q=<Q> slow=<µs> cancel=<-1|shot number> seed=<S>
+// kind=engine agg=phout|jsonlines pools=<P> inst=<I> ammo=<N> per=<R> q=<Q> slow=<µs> cancel=<-1|shot number> seed=<S> [startrps=<instances per second, 0 = all at once>]
 //
 // The REAL engine.Engine with P pools; every pool has I instances that shoot N ammo in total, every shoot sleeps
 // about `slow` µs (so that at the end of the run several instances are in their last shoot while others have
@@ -249,6 +249,12 @@ func runEngine(kv map[string]string) string {
 		}
 		ps = append(ps, p)
 		pp := p
+		// instances started one by one (startrps > 0): the start result reaches the pool's await loop long
+		// after the first instances have finished
+		startup := schedule.NewOnce(int64(inst))
+		if rps := atoi(kv["startrps"]); rps > 0 {
+			startup = schedule.NewConst(float64(rps), time.Duration(float64(inst)/float64(rps)*float64(time.Second)))
+		}
 		conf.Pools = append(conf.Pools, engine.InstancePoolConfig{
 			ID:         fmt.Sprintf("p%d", i),
 			Provider:   &engProvider{ch: make(chan core.Ammo), n: ammo},
@@ -259,7 +265,7 @@ func runEngine(kv map[string]string) string {
 			},
 			RPSPerInstance:  true,
 			NewRPSSchedule:  func() (core.Schedule, error) { return schedule.NewUnlimited(time.Hour), nil },
-			StartupSchedule: schedule.NewOnce(int64(inst)),
+			StartupSchedule: startup,
 		})
 	}
 	m := engine.Metrics{Request: &monitoring.Counter{}, Response: &monitoring.Counter{},
